@@ -633,6 +633,23 @@ func runC16(r *Run) {
 					}
 				}
 				r.check(handed, fmt.Sprintf("%s:%s:error-handed-up", fn, short(c.Name)), r.pos(c.Instr), "its error reaches a return of "+fn, "the error of "+short(c.Name)+" is dropped in "+fn)
+				// … on every path: once the call has failed, the function cannot report success any more
+				swallowed := ""
+				for _, br := range ifsOnValue(f, ev) {
+					sl, ok := br.nilSlot(false)
+					if !ok {
+						continue
+					}
+					isNilRet := func(in ssa.Instruction) bool {
+						ret, ok := in.(*ssa.Return)
+						return ok && ret.Parent() == f && len(ret.Results) > 0 && constIsNil(asConst(stripValue(ret.Results[len(ret.Results)-1])))
+					}
+					if path, hit := reachEdge(edge{br.If.Block(), sl}, isNilRet, nil, nil); hit != nil {
+						swallowed = pathString(r.P, path)
+					}
+				}
+				r.check(swallowed == "", fmt.Sprintf("%s:%s:failure-is-final", fn, short(c.Name)), r.pos(c.Instr), "from the `err != nil` edge no `return nil` is reachable",
+					"after "+short(c.Name)+" failed "+fn+" can still report success (e.g. because a second look at the store — whose own error is discarded — finds nothing): during an outage a single-use token is accepted and stays valid, DeleteToken reports success for a live token: "+swallowed)
 			}
 		}
 		r.atLeast("fallible calls on the delete path", n, 4)
